@@ -132,6 +132,17 @@ def install(I):
             kk = [k.items if isinstance(k, TupleVal) else k for k in ks]
             order = sorted(range(len(items)), key=lambda i: kk[i], reverse=bool(reverse))
             return ListVal([items[i] for i in order])
+        if len(items) <= 3 and not reverse:
+            # a short list with symbolic keys: stable insertion sort, one path per outcome of the comparisons
+            out = []
+            for x, kx in zip(items, keys):
+                pos = len(out)
+                for j, (y, ky) in enumerate(out):
+                    if I.truth(ctx, I.compare(ctx, ast.Lt(), kx, ky)):
+                        pos = j
+                        break
+                out.insert(pos, (x, kx))
+            return ListVal([x for x, _ in out])
         raise Unsupported(f"sorted() over symbolic keys at {ctx.where} (needs a contract-level model)")
 
     @reg("sum")
